@@ -12,20 +12,6 @@ Open Scope Z_scope.
 Ltac Zify.zify_post_hook ::= Z.div_mod_to_equations.
 
 (* ------------------------------------------------------------------ handles of the source message *)
-Definition sview (sm : segs) (p : Ptr) : Prop :=
-  p_valid p = true ->
-  wf_size (p_size p) /\ 0 <= p_seg p < zlen sm /\
-  match p_kind p with
-  | KStruct => True
-  | KList => shape_ok p /\
-             (p_comp p = true -> exists tag, rawStructPointer (p_len p) (p_size p) = Some tag /\
-                                             word_at sm (p_seg p) (p_off p - 8) = Some tag)
-  | KIface => 0 <= p_len p < 4294967296
-  end.
-
-Lemma sview_null sm : sview sm nullPtr.
-Proof. intros X. discriminate X. Qed.
-
 (* a tag word is the struct pointer word of its count and sizes *)
 Lemma tag_word_eq hdr : word64 hdr -> pointerType hdr = structPointer -> 0 <= s32 (ptr_offset hdr) ->
   rawStructPointer (s32 (ptr_offset hdr)) (structSize hdr) = Some hdr.
